@@ -35,13 +35,13 @@ ASSUMPTIONS = [
 SHARDS = {"quick": 16, "thorough": 16}
 TIMEOUT = {"quick": 900, "thorough": 7200}
 MIN_CASES = {"quick": 2000, "thorough": 10000}
-REQUIRED_COUNTERS = ["advertisements_fed", "accepted_and_delivered", "replays_ignored", "forgeries_ignored", "bitflips_ignored", "state_advances_checked", "rekey_replays_ignored"]
+REQUIRED_COUNTERS = ["advertisements_fed", "accepted_and_delivered", "replays_ignored", "forgeries_ignored", "bitflips_ignored", "state_advances_checked", "rekey_replays_ignored", "pairing_reloads"]
 
 DEVICE_ID = bytes.fromhex("aabbcc001122")
 OTHER_ID = bytes.fromhex("998877665544")
 UNKNOWN_ID = bytes.fromhex("010203040506")
 FORMATS = {10: "bool", 11: "uint8", 12: "uint16", 13: "uint32", 14: "uint64", 15: "int", 16: "float", 17: "string", 18: "data"}
-CLASSES = ["G1", "Gk", "Gk99", "Gcur", "Gold", "G100", "G1000", "WK", "WA", "UA", "IG", "TR", "ST"]
+CLASSES = ["G1", "Gk", "Gk99", "Gcur", "Gold", "Gsm", "G100", "G1000", "WK", "WA", "UA", "IG", "TR", "ST", "RL"]
 
 
 def entity_map():
@@ -133,6 +133,12 @@ def build_ad(w: World, klass: str, rng, arg=None):
         n = L
     elif klass == "Gold":
         n = L - rng.randint(1, min(50, L)) if L > 0 else None
+    elif klass == "Gsm":
+        # a genuine notification with a SMALL state number recorded long ago (the counter has run up since): just another
+        # older number - also when the last accepted number sits near the top of the 16-bit range
+        n = rng.randint(1, 98)
+        if n >= L:
+            n = None
     elif klass == "G100":
         n = L + 100
     elif klass == "G1000":
@@ -191,6 +197,18 @@ def reference_verdict(w: World, adv: bytes, payload: bytes):
 def step(ctx, w: World, klass, rng, replay, arg=None) -> bool:
     from aiohomekit.controller.ble import values as blevalues
 
+    if klass == "RL":
+        # the pairing is loaded AGAIN on the same controller (a reload of the integration) before any regular advertisement
+        # arrives: what was accepted stays accepted - the new object starts from the last accepted state number
+        try:
+            w.pairing = w.controller.load_pairing("main", w.pdata(DEVICE_ID))
+            w.pairing.dispatcher_connect(lambda ev: w.log.append(ev))
+        except Exception as ex:  # noqa: BLE001
+            ctx.violation(f"reload-raises-{type(ex).__name__}", f"load_pairing again from state {w.L}: {ex!r}", replay)
+            return False
+        ctx.count("pairing_reloads")
+        return True
+
     adv, payload, exp = build_ad(w, klass, rng, arg)
     before_state = w.pairing.description.state_num
     before_log = len(w.log)
@@ -208,14 +226,14 @@ def step(ctx, w: World, klass, rng, replay, arg=None) -> bool:
     desc = f"class {exp['klass']} nonce {exp['n']} inner {exp['inner']} iid {exp['iid']} from last accepted {w.L}"
     if verdict is None:
         if accepted:
-            key = {"Gcur": "replay-of-current-state-accepted", "Gold": "older-state-accepted", "G100": "beyond-window-accepted", "G1000": "beyond-window-accepted",
+            key = {"Gcur": "replay-of-current-state-accepted", "Gold": "older-state-accepted", "Gsm": "older-state-accepted", "G100": "beyond-window-accepted", "G1000": "beyond-window-accepted",
                    "WK": "wrong-key-accepted", "WA": "wrong-advertising-id-accepted", "UA": "unknown-id-accepted", "IG": "inner-counter-mismatch-accepted",
                    "TR": "truncated-payload-accepted", "ST": "shifted-tag-accepted", "BF": "corrupted-advertisement-accepted"}.get(exp["klass"], "unauthentic-advertisement-accepted")
             ctx.violation(key, f"{desc}: state {before_state}->{after_state}, listeners got {new_events}", replay)
             return False
         if klass in ("G1", "Gk", "Gk99"):
             ctx.count("genuine_not_accepted")  # only-if property: recorded, contributes to inconclusive via accepts == 0
-        elif klass in ("Gcur", "Gold"):
+        elif klass in ("Gcur", "Gold", "Gsm"):
             ctx.count("replays_ignored")
         elif klass == "BF":
             ctx.count("bitflips_ignored")
@@ -321,14 +339,20 @@ def run(ctx) -> None:
     async def main():
         idx = 0
         depth = ctx.pick(2, 3)
-        starts = [0, 1, 255, 256, 65000, 65534]
+        starts = [0, 1, 255, 256, 65000, 65500, 65534]
         for start in starts:
             for n in range(1, depth + 1):
                 for hist in itertools.product(CLASSES, repeat=n):
                     idx += 1
                     if ctx.mine(idx):
                         await run_history(ctx, start, hist, idx)
-        ctx.exhaustive_parts[f"all histories of length <= {depth} over 13 advertisement classes x 6 start state numbers"] = True
+        ctx.exhaustive_parts[f"all histories of length <= {depth} over 15 classes (13 advertisement classes, small old number, pairing reload) x 7 start state numbers"] = True
+        # directed: something is accepted, the pairing is loaded again, then the replay / an older number arrives
+        for start in starts:
+            for hist in (("G1", "RL", "Gcur"), ("Gk", "RL", "Gold"), ("G1", "RL", "Gcur", "G1", "RL", "Gcur"), ("Gk99", "RL", "RL", "Gcur"), ("G1", "G1", "RL", "Gold")):
+                idx += 1
+                if ctx.mine(idx):
+                    await run_history(ctx, start, hist, ("directed-reload", idx))
         for start in starts:
             for k in range(ctx.pick(2, 20)):
                 idx += 1
@@ -336,7 +360,7 @@ def run(ctx) -> None:
                     await run_rekey(ctx, start, k)
         for start in starts:
             await run_bitflips(ctx, start, starts.index(start))
-        ctx.exhaustive_parts["every single-bit flip of payload and tag (6 start state numbers)"] = True
+        ctx.exhaustive_parts["every single-bit flip of payload and tag (7 start state numbers)"] = True
         rng = ctx.rng("C18.random")
         for k in range(ctx.pick(640, 8000) // ctx.nshards):
             n = rng.randint(4, ctx.pick(14, 60))
